@@ -8,19 +8,23 @@
           db.GetMailboxByNamePerUser           (SELECT)            [SLookup]
           db.CreateMailboxPerUser              (INSERT, UNIQUE)    [SCreate]
           parser.StoreMessagePerUser...        (one transaction)   [SStore]
+          (CREATE refused: db.GetMailboxByNamePerUser again)    [SRelookup]
           db.AddMessageToMailboxPerUser =
             db.IncrementUIDNextPerUser:
-              SELECT uid_next FROM mailboxes WHERE id = ?          [SRead]
-              UPDATE mailboxes SET uid_next = uid_next + 1 ...     [SUpdate]
+              UPDATE mailboxes SET uid_next = uid_next + 1
+                WHERE id = ? RETURNING uid_next - 1   (ONE statement) [SAlloc]
             INSERT INTO message_mailbox (.., uid, ..)  UNIQUE(mailbox_id,uid)
                                                                    [SInsert]
       internal/server/message/message.go    HandleAppendWithReader / HandleAppend
           the same sequence without the create step (a missing folder is
           answered NO [TRYCREATE])
 
-    The value read in [SRead] lives in a REGISTER of the thread (Go local
-    [currentUID]/[uid]) and is used two steps later — the check-then-act window
-    of F4.  Every other operation of Model/Ops.v that the property quantifies
+    State of the code modelled: raven with fixes/c08-atomic-uidnext.patch (the
+    UID is handed out and uid_next advanced by one statement; before that a
+    SELECT and an UPDATE, the check-then-act window of F4) and
+    fixes/c08-deliver-folder-race.patch (a refused CREATE of the target folder
+    is followed by a second lookup).  The UID handed out by [SAlloc] lives in
+    a REGISTER of the thread (Go local [uid]) and is used one step later.  Every other operation of Model/Ops.v that the property quantifies
     over (UID COPY, UID STORE incl. the Junk move, EXPUNGE, CREATE) is one
     micro-step here ([PAtomic]): their inner statements run inside one SQL
     transaction or touch rows no delivery reads in its window; their own
@@ -65,9 +69,9 @@ Inductive prog :=
 Inductive tstate :=
 | SLookup
 | SCreate
+| SRelookup
 | SStore (mb : Z)
-| SRead (mb msg : Z)
-| SUpdate (mb msg uid : Z)
+| SAlloc (mb msg : Z)
 | SInsert (mb msg uid : Z)
 | SOk (mb msg uid : Z)            (* replied 250 / OK *)
 | SFail (msg : option Z)          (* replied 550 / NO; [msg] = the orphan messages row, if any *)
@@ -99,19 +103,23 @@ Definition thread_step (s : store) (th : thread) : store * thread :=
   | PDeliver f t, SCreate =>
       match create_mailbox_row s f t with
       | Some (s', id) => (s', mkThread p (SStore id))
+      | None => (s, mkThread p SRelookup)                    (* created by somebody else? *)
+      end
+  | PDeliver f t, SRelookup =>
+      match find_name s f with
+      | Some m => (s, mkThread p (SStore (mb_id m)))
       | None => (s, mkThread p (SFail None))                 (* "failed to create mailbox" *)
       end
   | PAtomic a, SAtomic =>
       let '(s', r) := step s (aop_op a) in (s', mkThread p (SRan r))
   | PAtomic _, _ => (s, th)
   | _, SStore mb =>
-      let '(s1, msg) := store_message s in (s1, mkThread p (SRead mb msg))
-  | _, SRead mb msg =>
+      let '(s1, msg) := store_message s in (s1, mkThread p (SAlloc mb msg))
+  | _, SAlloc mb msg =>
       match find_id s mb with
-      | Some m => (s, mkThread p (SUpdate mb msg (mb_next m)))
+      | Some m => (bump s mb, mkThread p (SInsert mb msg (mb_next m)))
       | None => (s, mkThread p (SFail (Some msg)))            (* sql.ErrNoRows *)
       end
-  | _, SUpdate mb msg u => (bump s mb, mkThread p (SInsert mb msg u))
   | _, SInsert mb msg u =>
       match insert_link s msg mb u (prog_flags p) with
       | Some s' => (s', mkThread p (SOk mb msg u))
@@ -156,18 +164,18 @@ Definition is_failst (th : thread) : bool :=
 (** the message row a thread owns (allocated by its [SStore] step) *)
 Definition owns (th : thread) : option Z :=
   match t_st th with
-  | SRead _ m | SUpdate _ m _ | SInsert _ m _ | SOk _ m _ => Some m
+  | SAlloc _ m | SInsert _ m _ | SOk _ m _ => Some m
   | SFail o => o
   | _ => None
   end.
 
-(** a thread run on its own until it has replied (6 steps suffice) *)
+(** a thread run on its own until it has replied (7 steps suffice) *)
 Definition solo (s : store) (p : prog) : store * thread :=
-  let c := run_sched [0; 0; 0; 0; 0; 0]%nat (init_cfg s [p]) in
+  let c := run_sched [0; 0; 0; 0; 0; 0; 0]%nat (init_cfg s [p]) in
   (c_store c, nth 0 (c_threads c) (start p)).
 
 (** the serial schedule: each thread in turn, to completion *)
-Definition serial (n : nat) : list tid := flat_map (fun i => repeat i 6) (seq 0 n).
+Definition serial (n : nat) : list tid := flat_map (fun i => repeat i 7) (seq 0 n).
 
 (** thread sets *)
 Definition micro (p : prog) : bool := match p with PAtomic _ => false | _ => true end.
@@ -177,56 +185,6 @@ Definition keeps (p : prog) : bool :=
 (** deliveries, appends and mailbox creation only *)
 Definition simple (p : prog) : bool :=
   match p with PAtomic (ACreate _ _) => true | PAtomic _ => false | _ => true end.
-
-(** ---- finding classes for "no spurious permanent failure" (e) ------------------- *)
-
-Inductive c08class := UidNextRace | CreateRace.
-
-(** thread [th] is inside its uid window on mailbox row [mb]: it has read
-    uid_next and has not yet executed its INSERT *)
-Definition in_window (mb : Z) (th : thread) : bool :=
-  match t_st th with
-  | SUpdate mb' _ _ | SInsert mb' _ _ => mb' =? mb
-  | _ => false
-  end.
-(** thread [th] has seen that folder [f] does not exist and not yet created it *)
-Definition in_create (f : str) (th : thread) : bool :=
-  match t_prog th, t_st th with
-  | PDeliver f' _, SCreate => str_eqb f' f
-  | _, _ => false
-  end.
-
-(** does scheduling thread [i] now open a window while another thread is inside
-    the same one?  (decided on the configuration BEFORE the step) *)
-Definition step_class (c : config) (i : tid) : option c08class :=
-  match nth_error (c_threads c) i with
-  | None => None
-  | Some th =>
-    match t_prog th, t_st th with
-    | PAtomic _, _ => None
-    | _, SRead mb _ =>
-        if existsb (in_window mb) (c_threads c) then Some UidNextRace else None
-    | PDeliver f _, SLookup =>
-        match find_name (c_store c) f with
-        | Some _ => None
-        | None => if existsb (in_create f) (c_threads c) then Some CreateRace else None
-        end
-    | _, _ => None
-    end
-  end.
-
-Fixpoint classify_from (c : config) (sch : list tid) : option c08class :=
-  match sch with
-  | [] => None
-  | i :: r => match step_class c i with
-              | Some k => Some k
-              | None => classify_from (sched_step c i) r
-              end
-  end.
-
-(** input of the property: initial store, programs, schedule *)
-Definition classify (s : store) (ps : list prog) (sch : list tid) : option c08class :=
-  classify_from (init_cfg s ps) sch.
 
 (** ---- executable audit of a final configuration (used by the correspondence) ---- *)
 
@@ -283,26 +241,32 @@ Definition mbox_view (c : config) (name : str) : Z * list (Z * Z) :=
 
 (** ---- grants: the granularity at which the correspondence suite can hold the
     implementation (an SQLite authorizer stops a session before the statements
-    C = INSERT mailboxes, R = SELECT uid_next, U = UPDATE uid_next,
+    C = INSERT mailboxes, U = UPDATE uid_next ... RETURNING,
     I = INSERT message_mailbox).  One grant lets a thread run to its next gate:
-    one or two micro-steps. ---------------------------------------------------------- *)
+    one to three micro-steps. ---------------------------------------------------------- *)
 
 Definition at_gate (th : thread) : bool :=
-  match t_st th with SLookup | SStore _ | SAtomic => false | _ => true end.
+  match t_st th with SLookup | SRelookup | SStore _ | SAtomic => false | _ => true end.
 
 Definition thread_at (c : config) (i : tid) : option thread := nth_error (c_threads c) i.
 
 (** micro-steps of one grant to thread [i] *)
-Definition grant_steps (c : config) (i : tid) : list tid :=
-  match thread_at (sched_step c i) i with
-  | Some th => if at_gate th then [i] else [i; i]
-  | None => [i]
+Fixpoint grant_from (fuel : nat) (c : config) (i : tid) : list tid :=
+  match fuel with
+  | O => []
+  | S f =>
+    let c1 := sched_step c i in
+    match thread_at c1 i with
+    | Some th => if at_gate th then [i] else i :: grant_from f c1 i
+    | None => [i]
+    end
   end.
+Definition grant_steps (c : config) (i : tid) : list tid := grant_from 4 c i.
 
-(** where the thread stands after the grant: 1 C, 2 R, 3 U, 4 I, 5 replied *)
+(** where the thread stands after the grant: 1 C, 3 U, 4 I, 5 replied *)
 Definition gate_code (th : thread) : Z :=
   match t_st th with
-  | SCreate => 1 | SRead _ _ => 2 | SUpdate _ _ _ => 3 | SInsert _ _ _ => 4
+  | SCreate => 1 | SAlloc _ _ => 3 | SInsert _ _ _ => 4
   | SOk _ _ _ | SFail _ | SRan _ => 5
   | _ => 0
   end.
@@ -318,9 +282,6 @@ Fixpoint run_grants (gs : list tid) (c : config) : config * list tid * list Z :=
       (c2, steps ++ ms, code :: tr)
   end.
 
-Definition class_code (k : option c08class) : Z :=
-  match k with None => 0 | Some UidNextRace => 1 | Some CreateRace => 2 end.
-
 Definition zlist_eqb (a b : list Z) : bool :=
   Nat.eqb (length a) (length b) && forallb (fun '(x, y) => x =? y) (combine a b).
 Definition view_eqb (a b : Z * list (Z * Z)) : bool :=
@@ -329,7 +290,7 @@ Definition view_eqb (a b : Z * list (Z * Z)) : bool :=
 
 (** one correspondence case: folder pre-created?, folder, programs, grants,
     observed (reply codes, gate trace, view of the folder).
-    Result: (1 iff model = observation, finding class of the schedule,
+    Result: (1 iff model = observation, 0 (no finding class is left),
              the model's reply codes, the model's uid_next) *)
 Definition gated_case := (bool * str * list prog * list tid * (list Z * list Z * (Z * list (Z * Z))))%type.
 
@@ -340,4 +301,4 @@ Definition eval_gated (k : gated_case) : Z * Z * list Z * Z :=
   let rep := map reply_code (c_threads c) in
   let v := mbox_view c f in
   ((if zlist_eqb rep o_rep && zlist_eqb tr o_tr && view_eqb v o_view then 1 else 0),
-   class_code (classify s0 ps ms), rep, fst v).
+   0, rep, fst v).
